@@ -157,17 +157,18 @@ def range_proofs(ctx):
     import shutil, subprocess, re
     wd = os.path.join(ctx.work, "proofs_range")
     shutil.copytree(os.path.join(core.SPEC, "proofs"), wd, ignore=shutil.ignore_patterns(".tlacache"))
-    p = subprocess.run(["timeout", "1500", "tlapm", "--threads", "6", "--cleanfp", "RangeCore.tla"], cwd=wd, stdout=subprocess.PIPE, stderr=subprocess.STDOUT, text=True)
-    m = re.search(r"All (\d+) obligations proved", p.stdout)
-    if not m:
-        raise core.ToolError("TLAPS did not prove spec/proofs/RangeCore.tla:\n" + p.stdout[-1500:])
-    ctx.classes["tlaps_obligations_proved"] = ctx.classes.get("tlaps_obligations_proved", 0) + int(m.group(1))
+    for mod in ("RangeCore.tla", "RangeSeal.tla"):
+        p = subprocess.run(["timeout", "1500", "tlapm", "--threads", "6", "--cleanfp", mod], cwd=wd, stdout=subprocess.PIPE, stderr=subprocess.STDOUT, text=True)
+        m = re.search(r"All (\d+) obligations proved", p.stdout)
+        if not m:
+            raise core.ToolError("TLAPS did not prove spec/proofs/%s:\n" % mod + p.stdout[-1500:])
+        ctx.classes["tlaps_obligations_proved"] = ctx.classes.get("tlaps_obligations_proved", 0) + int(m.group(1))
     ctx.assumptions.append("TLAPS 1.6 (SMT back end Z3) checks proofs correctly")
-    for (w, s, md) in [(2, 4, 3), (3, 6, 1)] + ([(2, 6, 2), (4, 8, 1)] if ctx.tier == "thorough" else []):
-        st = ctx.tlc("MC_RangeBridge", {"W": w, "S": s, "MaxData": md}, invariants=["DecBridge", "EncBridge"], workers=12, timeout=3000, label="MC_RangeBridge_%d_%d" % (w, s))
+    for (w, s, md) in [(2, 4, 3), (3, 6, 1), (2, 6, 1)] + ([(2, 6, 2), (4, 8, 1), (2, 8, 1)] if ctx.tier == "thorough" else []):
+        st = ctx.tlc("MC_RangeBridge", {"W": w, "S": s, "MaxData": md}, invariants=["DecBridge", "EncBridge", "SealBridge"], workers=12, timeout=3000, label="MC_RangeBridge_%d_%d" % (w, s))
         if st["spec_violation"]:
             raise core.ToolError("MC_RangeBridge: Range.tla does not compute the step proved in spec/proofs at W=%d S=%d:\n%s" % (w, s, st.get("counterexample", "")))
-    ctx.require("tlaps_obligations_proved", 200)
+    ctx.require("tlaps_obligations_proved", 350)
 
 
 def ans_proofs(ctx):
@@ -336,6 +337,7 @@ def c02(ctx):
 
 @prop("C11")
 def c11(ctx):
+    range_proofs(ctx)        # RangeSeal.tla: the sealing rule for all widths (normal situation), tied to SealWords by MC_RangeBridge
     range_hists(ctx, ["TypeInv", "StateInv", "SuffixOK"], "c11")
     for c in RANGE_CLASSES:
         ctx.require(c)
